@@ -16,6 +16,9 @@ from mdsa.astutil import call_attr, call_recv, kwarg, local_calls, norm, store_t
 from mdsa.cfg import walk_local
 from mdsa.loader import AnalysisError, dotted
 
+from mdsa import match as MM
+
+from .sem import F
 from .common import Ctx, fs_sinks, local_defs, node_of
 
 H = "util.hashsums"
@@ -58,37 +61,55 @@ def r1_chunk_loop(P, rep, ctx):
         ok = bool(loops) and bool(upd) and all(g.every_path_passes(upd, l.idx, src=l.idx, src_label="iter") for l in loops)
         rep.check(ok, "C19.R1", fi.qual, "iter(read, b'') loop: every chunk is fed to update", fi.loc(), construct="chunk loop", message="hashsum does not feed every chunk of the iter(read, b'') loop to update()")
     else:
-        if len(reads) != 1:
-            raise AnalysisError(f"C19.R1: expected exactly one chunk read in hashsum, found {len(reads)}")
-        rd = reads[0]
-        cv = norm(rd.stmt.targets[0])
-        tests = [t for t in g.nodes if t.kind == "test" and norm(t.exprs[0]) in (f"not {cv}", f"{cv} == b''", f"len({cv}) == 0")]
-        loop_tests = [t for t in g.nodes if t.kind == "test" and isinstance(t.stmt, ast.While)]
-        # every path from the read to the function's continuation after the loop goes through the T edge of the empty test
+        f = F(ctx, fi)
+        walrus = [t for t in g.nodes if t.kind == "test" and isinstance(t.stmt, ast.While) and isinstance(t.exprs[0], ast.NamedExpr) and isinstance(t.exprs[0].value, ast.Call) and call_attr(t.exprs[0].value) == "read"]
+        if len(reads) + len(walrus) != 1:
+            raise AnalysisError(f"C19.R1: expected exactly one chunk read in hashsum, found {len(reads) + len(walrus)}")
         ret = [n.idx for n in g.nodes if isinstance(n.stmt, ast.Return)]
-        ok = bool(tests) and bool(ret) and all(any(g.edge_dominates(t.idx, "T", r) for t in tests) for r in ret) and all(const_true(lt.exprs[0]) for lt in loop_tests)
+        if walrus:
+            rdn = walrus[0].idx
+            cv = walrus[0].exprs[0].target.id
+            empty = [(rdn, "F")]
+            nonempty = [(rdn, "T")]
+            const_loop = True
+        else:
+            rd = reads[0]
+            rdn = rd.idx
+            cv = norm(rd.stmt.targets[0])
+            empty = f.tests(f"not {cv}", f"{cv} == b''", f"len({cv}) == 0")
+            nonempty = f.neg(empty)
+            loops_ = [n for n in g.nodes if n.kind == "loop"]
+            const_loop = bool(loops_) and all(const_true(n.stmt.test) for n in loops_)
+        # every path from the read to the function's continuation after the loop goes through the "empty read" edge
+        ok = bool(empty) and bool(ret) and f.all_hit_before(ret, edges=empty) and const_loop
         rep.check(ok, "C19.R1", fi.qual, "the only exit of the read loop is the empty read", fi.loc(), construct="loop exit", message="hashsum can leave the read loop other than by an empty read (e.g. on a short chunk): trailing bytes are not hashed")
         # a non-empty chunk always reaches update before the next read
-        ok2 = bool(upd) and all(g.every_path_passes(upd, rd.idx, src=t.idx, src_label="F") for t in tests)
-        rep.check(ok2, "C19.R1", fi.qual, "every non-empty chunk reaches h.update before the next read", fi.loc(), construct="update on every chunk", message="a non-empty chunk can be skipped without h.update(chunk)", path=g.path_text(g.find_path(rd.idx, avoid=upd, src=tests[0].idx if tests else None, src_label="F")))
+        ok2 = bool(upd) and bool(nonempty) and all(f.hit_before(rdn, nodes=upd, src_edge=e) for e in nonempty)
+        rep.check(ok2, "C19.R1", fi.qual, "every non-empty chunk reaches h.update before the next read", fi.loc(), construct="update on every chunk", message="a non-empty chunk can be skipped without h.update(chunk)")
         rep.check(all(norm(c.args[0]) == cv for u in upd for c in g.calls(u) if call_attr(c) == "update"), "C19.R1", fi.qual, "update is fed the chunk just read", fi.loc(), construct="update argument", message="h.update is not fed the chunk that was read")
-    rets = [norm(x.value) for x in walk_local(fi.node) if isinstance(x, ast.Return)]
-    rep.check(rets == ["h.hexdigest()"], "C19.R1", fi.qual, "result is the hex digest", fi.loc(), construct="hashsum return", message=f"hashsum returns {rets}")
+    f0 = F(ctx, fi)
+    rets = [f0.x_at(i, v) for i, v in f0.returns() if v is not None]
+    rep.check(bool(rets) and all(r.endswith(".hexdigest()") and "_hash_alg[" in r for r in rets), "C19.R1", fi.qual, "result is the hex digest", fi.loc(), construct="hashsum return", message=f"hashsum returns {rets}")
     tr = [x for x in walk_local(fi.node) if isinstance(x, ast.Try)]
     ok = bool(tr) and any(norm(h.type) == "KeyError" and any(isinstance(b, ast.Raise) and "ValueError" in norm(b) for b in h.body) for t in tr for h in t.handlers) and "_hash_alg[alg]()" in norm(fi.node)
     rep.check(ok, "C19.R1", fi.qual, "unknown algorithm raises ValueError", fi.loc(), construct="algorithm lookup", message="hashsum does not raise ValueError for an unknown algorithm")
     rep.check("isinstance(data, bytes)" in norm(fi.node) and "BytesIO(data)" in norm(fi.node), "C19.R1", fi.qual, "bytes input is hashed through the same loop", fi.loc(), construct="bytes input", message="bytes input is not wrapped in BytesIO")
     q = P.func(f"{H}.qualified_hashsum")
-    rets = [norm(x.value) for x in walk_local(q.node) if isinstance(x, ast.Return)]
-    rep.check(rets == ["f'{alg}:{hashsum(data, alg)}'"], "C19.R1", q.qual, "qualified hash = algorithm prefix + ':' + digest", q.loc(), construct="qualified_hashsum", message=f"qualified_hashsum returns {rets}")
+    qf = F(ctx, q)
+    rets = [qf.x(v) for _, v in qf.returns() if v is not None]
+    a0, a1 = q.params[0], q.params[1]
+    rep.check(rets == [f"f'{{{a1}}}:{{hashsum({a0}, {a1})}}'"], "C19.R1", q.qual, "qualified hash = algorithm prefix + ':' + digest", q.loc(), construct="qualified_hashsum", message=f"qualified_hashsum returns {rets}")
     # binary mode of every open that feeds a hash
     for fq in (f"{H}.file_hashsum", "ih5.record.hashsum_file", "harvester.common.FileMetaHarvester.run"):
         f = P.func(fq)
         opens = [s for s in fs_sinks(P, f) if s["kind"] in ("open", "Path.open")]
         rep.check(bool(opens) and all(s["mode"] == "rb" for s in opens), "C19.R1", f.qual, "file is opened in binary mode for hashing", f.loc(), construct=f"open modes {[s['mode'] for s in opens]}", message=f"{fq} does not open the file as 'rb' for hashing: {[s['mode'] for s in opens]}")
     hf = P.func("ih5.record.hashsum_file")
-    t = norm(hf.node)
-    rep.check("f.seek(skip_bytes)" in t and "return qualified_hashsum(f)" in t, "C19.R1", hf.qual, "container payload hash seeks to skip_bytes and hashes to EOF", hf.loc(), construct="hashsum_file", message="hashsum_file does not seek(skip_bytes) and hash the rest of the file")
+    hff = F(ctx, hf)
+    seeks = hff.call_sites(f"__f.seek({hf.params[1]})")
+    hr = [(i, v) for i, v in hff.returns() if v is not None]
+    ok = bool(seeks) and bool(hr) and all(MM.match("qualified_hashsum(__f)", v) is not None or MM.match("qualified_hashsum(__f, ___)", v) is not None for i, v in hr) and all(hff.hit_before(i, nodes=[j for j, c, b in seeks]) for i, v in hr) and not hff.calls("__f.read(___)")
+    rep.check(ok, "C19.R1", hf.qual, "container payload hash seeks to skip_bytes and hashes to EOF", hf.loc(), construct="hashsum_file", message="hashsum_file does not seek(skip_bytes) and hash the rest of the file")
 
 
 def const_true(e):
@@ -151,18 +172,23 @@ def r2_symlink_precedence(P, rep, ctx, tier):
 
 def r3_outside_links(P, rep, ctx):
     fi = P.func(f"{H}.dir_hashsums")
-    g = ctx.cfg(fi)
-    rs = [n for n in g.nodes if n.kind == "stmt" and isinstance(n.stmt, ast.Assign) and isinstance(n.stmt.value, ast.Call) and norm(n.stmt.value.func) == "rel_symlink"]
-    if len(rs) != 1:
+    f = F(ctx, fi)
+    g = f.g
+    dp = fi.params[0]
+    rcs = f.call_sites(f"rel_symlink({dp}, __p)")
+    anyrs = [c for c in local_calls(fi.node) if norm(c.func) == "rel_symlink"]
+    if len(anyrs) != 1:
         raise AnalysisError("C19.R3: rel_symlink call not found in dir_hashsums")
-    tv = norm(rs[0].stmt.targets[0])
-    rep.check([norm(a) for a in rs[0].stmt.value.args] == [fi.params[0], "path"], "C19.R3", fi.qual, "link is normalised relative to the hashed directory", fi.loc(rs[0].stmt), construct="rel_symlink arguments", message=f"rel_symlink is called with {[norm(a) for a in rs[0].stmt.value.args]}")
-    tests = [t for t in g.nodes if t.kind == "test" and norm(t.exprs[0]) == f"{tv} is None"]
-    uses = [n.idx for n in g.nodes if n.kind == "stmt" and n.idx != rs[0].idx and any(isinstance(x, ast.Name) and x.id == tv and isinstance(x.ctx, ast.Load) for x in walk_local(n.stmt)) and not isinstance(n.stmt, ast.Raise)]
-    ok = bool(tests) and all(g.exit not in g.reach([b for b, l in g.succ[t.idx] if l == "T"]) for t in tests) and all(any(g.edge_dominates(t.idx, "F", u) for t in tests) for u in uses) and bool(uses)
+    loopv = [norm(n.stmt.target) for n in g.nodes if n.kind == "for" and f.x(n.stmt.iter) == f"{dp}.rglob('*')"]
+    rep.check(bool(rcs) and all(norm(b["__p"]) in loopv for i, c, b in rcs), "C19.R3", fi.qual, "link is normalised relative to the hashed directory", fi.loc(anyrs[0]), construct="rel_symlink arguments", message=f"rel_symlink is called with {[norm(a) for a in anyrs[0].args]}")
+    CALL = f"rel_symlink({dp}, {loopv[0] if loopv else 'path'})"
+    outside = f.tests(f"{CALL} is None")
+    recs = [(i, v) for i, v, b in f.stores("__x") if isinstance(g.nodes[i].stmt, ast.Assign) and CALL in f.x_at(i, v) and f.x_at(i, v) != CALL]
+    recs += [(i, v) for i, v, b in f.stores("__c[__k]") if CALL in f.x_at(i, v)]
+    uses = sorted({i for i, v in recs})
+    ok = f.refuses(outside) and bool(uses) and f.all_hit_before(uses, edges=f.neg(outside))
     rep.check(ok, "C19.R3", fi.qual, "a link leading outside the directory raises before its target is recorded", fi.loc(), construct="outside link refusal", message="dir_hashsums records a symlink target without refusing links that lead outside the directory")
-    val = [n for n in g.nodes if n.kind == "stmt" and isinstance(n.stmt, ast.Assign) and tv in norm(n.stmt.value) and n.idx in uses]
-    rep.check(any(norm(n.stmt.value) == f"'symlink:' + str({tv})" for n in val), "C19.R3", fi.qual, "in-directory link is recorded as 'symlink:' + normalised target", fi.loc(), construct="symlink value", message="symlink entries are not recorded as 'symlink:' + target")
+    rep.check(any(f.x_at(i, v) in (f"'symlink:' + str({CALL})", f"f'symlink:{{{CALL}}}'", f"f'symlink:{{str({CALL})}}'") for i, v in recs), "C19.R3", fi.qual, "in-directory link is recorded as 'symlink:' + normalised target", fi.loc(), construct="symlink value", message="symlink entries are not recorded as 'symlink:' + target")
     rl = P.func(f"{H}.rel_symlink")
     t = norm(rl.node)
     res = [c for c in local_calls(rl.node) if call_attr(c) in ("resolve", "realpath")]
@@ -179,26 +205,76 @@ def r3_outside_links(P, rep, ctx):
 
 def r4_structure(P, rep, ctx):
     fi = P.func(f"{H}.dir_hashsums")
-    t = norm(fi.node)
-    loops = [x for x in walk_local(fi.node) if isinstance(x, ast.For)]
-    rep.check(any(norm(l.iter) == f"{fi.params[0]}.rglob('*')" for l in loops), "C19.R4", fi.qual, "every entry below the directory is visited", fi.loc(), construct="rglob", message="dir_hashsums does not iterate dir.rglob('*')")
-    seg = [l for l in loops if norm(l.iter) == "str(relpath).split('/')"]
-    ok = len(seg) == 1 and "curr[seg] = dict()" in norm(seg[0]) and "curr = curr[seg]" in norm(seg[0])
-    rep.check(ok, "C19.R4", fi.qual, "the directory chain of every entry is materialised as nested dicts (empty directories appear)", fi.loc(), construct="directory chain", message="dir_hashsums does not create the nested dict chain for every entry")
-    g = ctx.cfg(fi)
-    cut = [n.idx for n in g.nodes if n.kind == "stmt" and isinstance(n.stmt, ast.Assign) and any("relpath" in norm(tt) for tt in n.stmt.targets) and "relpath.parent" in norm(n.stmt.value)]
-    ft = [t.idx for t in g.nodes if t.kind == "test" and norm(t.exprs[0]) in ("is_file or is_sym", "is_sym or is_file")]
-    rep.check(bool(cut) and bool(ft) and all(any(g.edge_dominates(t, "T", c) for t in ft) for c in cut), "C19.R4", fi.qual, "only files and symlinks are split into (parent chain, name); a directory contributes its full path (so empty directories appear)", fi.loc(),
+    f = F(ctx, fi)
+    g = f.g
+    dp, alg = fi.params[0], fi.params[1]
+    outer = [n for n in g.nodes if n.kind == "for" and f.x(n.stmt.iter) == f"{dp}.rglob('*')" and isinstance(n.stmt.target, ast.Name)]
+    rep.check(len(outer) == 1, "C19.R4", fi.qual, "every entry below the directory is visited", fi.loc(), construct="rglob", message="dir_hashsums does not iterate dir.rglob('*')")
+    if len(outer) != 1:
+        raise AnalysisError("C19.R4: entry loop of dir_hashsums not found")
+    L = outer[0].idx
+    pv = outer[0].stmt.target.id
+    REL = f"{pv}.relative_to({dp})"
+    is_file = f.tests(f"{pv}.is_file()")
+    is_sym = f.tests(f"{pv}.is_symlink()")
+    leaf = is_file + is_sym
+    segl = [n for n in g.nodes if n.kind == "for" and MM.match("str(__r).split('/')", f.xe_at(n.idx, n.stmt.iter)) is not None and isinstance(n.stmt.target, ast.Name)] + [n for n in g.nodes if n.kind == "for" and MM.match("__r.parts", f.xe_at(n.idx, n.stmt.iter)) is not None and isinstance(n.stmt.target, ast.Name)]
+    ok_chain = bool(segl) and bool(leaf)
+    cut_ok = ok_chain
+    for n in segl:
+        m = MM.match("str(__r).split('/')", f.xe_at(n.idx, n.stmt.iter)) or MM.match("__r.parts", f.xe_at(n.idx, n.stmt.iter))
+        r = m["__r"]
+        rt = norm(r)
+        if rt == f"{REL}.parent":
+            cut_ok = cut_ok and f.hit_before(n.idx, edges=leaf, src=L)
+        elif rt == REL:
+            pass
+        elif isinstance(r, ast.Name):
+            # several definitions reach the loop: every one that cuts the last component is made for files / symlinks only
+            defs = [(i, v) for i, v, b in f.stores(r.id)]
+            known = True
+            for i, v in defs:
+                xv = f.x_at(i, v)
+                if xv == f"{REL}.parent":
+                    cut_ok = cut_ok and f.hit_before(i, edges=leaf, src=L)
+                elif xv != REL:
+                    known = False
+            cut_ok = cut_ok and known and bool(defs)
+        else:
+            cut_ok = False
+    # a directory entry (neither file nor symlink) still walks its full chain
+    dir_reaches = bool(segl) and any(n.idx in g.reach_consistent([], labels_block=leaf, start_edges=[(L, "iter")]) for n in segl)
+    rep.check(ok_chain and dir_reaches, "C19.R4", fi.qual, "the directory chain of every entry is materialised as nested dicts (empty directories appear)", fi.loc(), construct="directory chain", message="dir_hashsums does not create the nested dict chain for every entry")
+    rep.check(cut_ok and dir_reaches, "C19.R4", fi.qual, "only files and symlinks are split into (parent chain, name); a directory contributes its full path (so empty directories appear)", fi.loc(),
               construct="relpath cut only for files/symlinks", message="dir_hashsums cuts the last component off every entry, directories included: a directory is only recorded as parent of something below it, so empty directories vanish from the tree")
-    vs = [n.idx for n in g.nodes if n.kind == "stmt" and norm(n.stmt) == "curr[fname] = val"]
-    rep.check(bool(vs) and bool(ft) and all(any(g.edge_dominates(t, "T", v) for t in ft) for v in vs) and any(g.every_path_passes(vs, [n.idx for n in g.nodes if n.kind == "for" and "rglob" in norm(n.stmt.iter)][0], src=t, src_label="T") for t in ft), "C19.R4", fi.qual,
-              "every file and symlink is recorded under its name (and only those)", fi.loc(), construct="entry store condition", message="dir_hashsums does not store the value of every file/symlink entry (or stores one for directories)")
-    segl = [n for n in g.nodes if n.kind == "for" and norm(n.stmt.iter) == "str(relpath).split('/')"]
-    dot = [t.idx for t in g.nodes if t.kind == "test" and norm(t.exprs[0]) == "seg == '.'"]
-    mk = [t.idx for t in g.nodes if t.kind == "test" and norm(t.exprs[0]) == "seg not in curr"]
-    mks = [n.idx for n in g.nodes if n.kind == "stmt" and norm(n.stmt) == "curr[seg] = dict()"]
-    dsc = [n.idx for n in g.nodes if n.kind == "stmt" and norm(n.stmt) == "curr = curr[seg]"]
-    ok = len(segl) == 1 and bool(dot) and bool(mk) and bool(mks) and bool(dsc) and all(g.edge_dominates(mk[0], "T", x) for x in mks) and all(g.every_path_passes(mks, segl[0].idx, src=t, src_label="T") for t in mk) and all(g.every_path_passes(dsc, segl[0].idx, src=t, src_label="F") for t in dot) and all(any(isinstance(g.nodes[b].stmt, ast.Continue) for b, l in g.succ[t] if l == "T") for t in dot)
+    def _is_name_key(i, k):
+        if f.x_at(i, k) in (f"{REL}.name", f"{pv}.name"):
+            return True
+        if isinstance(k, ast.Name):
+            ds = [f.x_at(j, dv) for j, dv, _b in f.stores(k.id)]
+            real = [d for d in ds if d != "None"]
+            return bool(real) and all(d in (f"{REL}.name", f"{pv}.name") for d in real)
+        return False
+
+    vs_all = [(i, v, b) for i, v, b in f.stores("__c[__k]") if _is_name_key(i, b["__k"])]
+    vs = [i for i, v, b in vs_all]
+    okv = bool(vs) and bool(leaf) and f.all_hit_before(vs, edges=leaf, src=L) and all(f.hit_before(L, nodes=vs, src_edge=e) for e in leaf)
+    rep.check(okv, "C19.R4", fi.qual, "every file and symlink is recorded under its name (and only those)", fi.loc(), construct="entry store condition", message="dir_hashsums does not store the value of every file/symlink entry (or stores one for directories)")
+    ok = bool(segl)
+    for n in segl:
+        sv = n.stmt.target.id
+        SL = n.idx
+        dot = f.tests(f"{sv} == '.'")
+        mk_st = [(i, v, b) for i, v, b in f.stores(f"__c[{sv}]") if norm(v) in ("dict()", "{}")]
+        mks = [i for i, v, b in mk_st if f.hit_before(i, nodes=[SL]) or True]
+        cvars = {norm(b["__c"]) for i, v, b in mk_st}
+        absent = [e for c_ in cvars for e in f.tests(f"{sv} not in {c_}")]
+        dsc = [i for c_ in cvars for i, v, b in f.stores(c_) if norm(v) == f"{c_}[{sv}]"] + [i for c_ in cvars for i, v, b in f.stores(c_) if norm(v) == f"{c_}.setdefault({sv}, dict())" or norm(v) == f"{c_}.setdefault({sv}, {{}})"]
+        in_loop = lambda i: SL in g.reach([i])
+        mks = [i for i in mks if in_loop(i)]
+        dsc = [i for i in dsc if in_loop(i)]
+        setdef = any("setdefault" in norm(g.nodes[i].stmt) for i in dsc)
+        ok = ok and bool(dsc) and (setdef or (bool(mks) and bool(absent) and f.all_hit_before(mks, edges=absent, src=SL) and all(f.hit_before(SL, nodes=mks, src_edge=e) for e in absent if SL in g.reach(f.heads([e]))))) and f.hit_before(SL, nodes=dsc, edges=dot, src_edge=(SL, "iter"))
     rep.check(ok, "C19.R4", fi.qual, "each path segment (except '.') creates its dict when absent and descends into it", fi.loc(), construct="segment loop", message="the directory-chain loop of dir_hashsums no longer creates missing dicts / descends for every segment")
     bt = [t.idx for t in ctx.cfg(P.func(f"{H}.hashsum")).nodes if t.kind == "test" and norm(t.exprs[0]) == "isinstance(data, bytes)"]
     rep.check(bool(bt), "C19.R4", f"{H}.hashsum", "bytes input is wrapped exactly when it is bytes", fi.loc(), construct="bytes test", message="hashsum wraps non-bytes input / does not wrap bytes")
@@ -206,11 +282,21 @@ def r4_structure(P, rep, ctx):
 
     for q in (f"{H}.hashsum", f"{H}.qualified_hashsum", f"{H}.file_hashsum", f"{H}.rel_symlink", f"{H}.dir_hashsums", "ih5.record.hashsum_file"):
         require_total(rep, ctx, "C19.R4", P.func(q))
-    stores = [st for st in walk_local(fi.node) if isinstance(st, ast.Assign) and any(isinstance(tt, ast.Subscript) and norm(tt.value) == "curr" for tt in st.targets)]
-    vals = sorted({norm(s.value) for s in stores})
-    rep.check(vals == ["dict()", "val"], "C19.R4", fi.qual, "only sub-dicts and the entry value are stored into the tree", fi.loc(), construct=f"stored values {vals}", message=f"dir_hashsums stores {vals} into the result")
-    vdefs = sorted({norm(v) for k, v in local_defs(fi).get("val", []) if v is not None})
-    rep.check(set(vdefs) <= {"''", "file_hashsum(path, alg)", "'symlink:' + str(sym_trg)"} and "file_hashsum(path, alg)" in vdefs, "C19.R4", fi.qual, "entry values are the content hash or the symlink target only", fi.loc(), construct=f"val definitions {vdefs}", message=f"entry values derive from {vdefs}")
+    sub_stores = [(i, v, b) for i, v, b in f.stores("__c[__k]")]
+    vals = set()
+    for i, v, b in sub_stores:
+        xv = f.x_at(i, v)
+        if norm(v) in ("dict()", "{}"):
+            vals.add("dict()")
+        elif isinstance(v, ast.Name):
+            for j, dv, _b in f.stores(v.id):
+                vals.add(f.x_at(j, dv))
+        else:
+            vals.add(xv)
+    CALL = f"rel_symlink({dp}, {pv})"
+    allowed = {"dict()", "''", f"file_hashsum({pv}, {alg})", f"'symlink:' + str({CALL})", f"f'symlink:{{{CALL}}}'", f"f'symlink:{{str({CALL})}}'"}
+    rep.check(vals <= allowed and "dict()" in vals, "C19.R4", fi.qual, "only sub-dicts and the entry value are stored into the tree", fi.loc(), construct="stored values", message=f"dir_hashsums stores {sorted(vals - allowed)} into the result")
+    rep.check(f"file_hashsum({pv}, {alg})" in vals, "C19.R4", fi.qual, "entry values are the content hash or the symlink target only", fi.loc(), construct="val definitions", message=f"entry values derive from {sorted(vals)}")
     # purity: no stat/time values, no memoisation on the chain
     chain = [P.func(f"{H}.hashsum"), P.func(f"{H}.qualified_hashsum"), P.func(f"{H}.file_hashsum"), P.func(f"{H}.dir_hashsums"), P.func(f"{H}.rel_symlink"), P.func("ih5.record.hashsum_file")]
     chain += [f for f in P.functions.values() if f.module.name == H and f not in chain]
@@ -221,4 +307,10 @@ def r4_structure(P, rep, ctx):
         stat = [x for x in walk_local(f.node) if (isinstance(x, ast.Attribute) and x.attr in ("st_mtime", "st_mtime_ns", "st_size", "st_ctime", "st_ino")) or (isinstance(x, ast.Call) and (call_attr(x) in ("stat", "lstat", "getmtime", "getsize")))]
         rep.check(not stat, "C19.R4", f.qual, "no stat/timestamp value is consulted when hashing", f.loc(), construct="stat use", message=f"{f.qual} consults file status ({norm(stat[0]) if stat else ''}) while computing content hashes")
     fh = P.func(f"{H}.file_hashsum")
-    rep.check("with open(path, 'rb') as f: return qualified_hashsum(f, alg)" in norm(fh.node).replace("\n", " ") or ("open(path, 'rb')" in norm(fh.node) and "return qualified_hashsum(f, alg)" in norm(fh.node)), "C19.R4", fh.qual, "file_hashsum hashes the file's current bytes", fh.loc(), construct="file_hashsum body", message="file_hashsum does not open the file and hash its bytes")
+    fhf = F(ctx, fh)
+    withs = [n for n in fhf.g.nodes if n.kind == "with" and any(MM.match(f"open({fh.params[0]}, 'rb')", it.context_expr) is not None and it.optional_vars is not None for it in n.stmt.items)]
+    okf = bool(withs)
+    if okf:
+        hv = norm(withs[0].stmt.items[0].optional_vars)
+        okf = bool(fhf.returns()) and all(v is not None and fhf.x_at(i, v) == f"qualified_hashsum({hv}, {fh.params[1]})" for i, v in fhf.returns())
+    rep.check(okf, "C19.R4", fh.qual, "file_hashsum hashes the file's current bytes", fh.loc(), construct="file_hashsum body", message="file_hashsum does not open the file and hash its bytes")
